@@ -40,7 +40,7 @@ def generate(chk, tier):
     thorough = tier != "quick"
     maxlen = 17 if thorough else 13
     jobs = [
-        ("refine-pad", dict(module="MC_EncRefine", constants_text=E.refine_cfg(1, [0, 1], 12, "pad", False), workers=2, want_cases=False)),
+        ("refine-pad", dict(module="MC_EncRefine", constants_text=E.refine_cfg(1, [0, 1], 12, "pad", False), workers=1, want_cases=False)),
         ("refine-fill", dict(module="MC_EncRefine", constants_text=E.refine_cfg(1, [0, 1], 14 if thorough else 12, "fill", False), workers=2, want_cases=False)),
         ("refine3-pad", dict(module="MC_EncRefine", constants_text=E.refine_cfg(2, [0, 1, 3], 9 if thorough else 8, "pad", False), workers=2, want_cases=False)),
         ("refine3-fill", dict(module="MC_EncRefine", constants_text=E.refine_cfg(2, [0, 1, 3], 10 if thorough else 8, "fill", False), workers=2, want_cases=False)),
@@ -51,10 +51,13 @@ def generate(chk, tier):
         ("hist-pos", dict(module="MC_EncHist", constants_text=E.hist_cfg("pos", 3 if thorough else 2, 8, "consume", True, C11_STREAMS), workers=4, timeout=2400)),
         ("hist-full", dict(module="MC_EncHist", constants_text=E.hist_cfg("full", 0, 8 if thorough else 5, "consume", True, C11_STREAMS), workers=4, timeout=2400)),
     ]
-    for fam in E.FAMILIES:
-        jobs.append(("cases-" + fam, dict(module="MC_EncCases", workers=4, timeout=2400,
-                                          constants_text=E.cfg_text({"Families": E.tla_set([fam]), "Thorough": "TRUE" if thorough else "FALSE"}))))
+    jobs.insert(0, ("cases", dict(module="MC_EncCases", workers=6, timeout=2400,
+                                  constants_text=E.cfg_text({"Families": E.tla_set(E.FAMILIES), "Thorough": "TRUE" if thorough else "FALSE"}))))
+    jobs.sort(key=lambda j: 0 if j[0] in ("cases", "seq-bin", "hist-pos", "hist-full") else 1)
     res = E.run_many(jobs, parallel=5)
+    T("tlc model checking + generation")
+    for name, r in res.items():
+        common.log("    job %-14s %.1fs %d states %d cases" % (name, r.wall, r.distinct, len(r.cases)))
     for name, r in res.items():
         expected_violation = name in ("refine-pad", "refine3-pad", "dec-skip")
         if r.error or (r.rc != 0 and not (expected_violation and r.rc == 12)):
@@ -81,7 +84,9 @@ def run(chk, tier, replay):
         "encoders are called inside their documented domain: values < 2^bit_width, levels 0..32767 at widths <= 15, always-sufficient output capacity, bitpack_32 output sized in whole 8-value groups",
         "streaming HasNext after the last value is only constrained when no bytes follow the last value-bearing run",
     ]
+    _t0[0] = _time.time()
     E.selfcheck(chk, tier)
+    T('selfcheck')
     res = generate(chk, tier)
 
     # ---- 1. model checking results on the specification itself
@@ -98,7 +103,7 @@ def run(chk, tier, replay):
 
     # ---- 2. round trips
     cases = []
-    for name in ["seq-bin", "seq-tern"] + ["cases-" + f for f in E.FAMILIES]:
+    for name in ("seq-bin", "seq-tern", "cases"):
         cases += [c for c in res[name].cases if c.get("kind") in E.FAMILIES]
     if len(cases) < 1000:
         raise InfraError("case generation produced only %d cases" % len(cases))
@@ -109,6 +114,7 @@ def run(chk, tier, replay):
             lines.append(ln)
         owner[cid] = c
     hres, faults, leaky = common.run_harness_leaks(binary, lines, leak_every=256)
+    T('harness round trips (%d lines)' % len(lines))
     events, ev_owner = [], {}
     drift = {"pad": 0, "fill": 0, "both": 0, "none": 0}
     per_family = {}
@@ -136,7 +142,9 @@ def run(chk, tier, replay):
         chk.sample({"kind": c["kind"], "n": E.case_len(c), "case": {k: (v if not isinstance(v, list) or len(v) <= 24 else v[:24] + ["..."]) for k, v in c.items() if k not in ("pad", "fill", "bytes", "dict")}})
 
     # ---- 3. exact encoded size: TLC parses what carquet wrote
+    T('compare')
     verdicts, tr = E.trace_validate(events, workers=None)
+    T('trace validation (%d events)' % len(events))
     if tr:
         chk.add_tlc(tr)
     chk.cov["traces_validated_against_impl"] += len(verdicts)
@@ -196,6 +204,7 @@ def run(chk, tier, replay):
         hl.append("%s rle_hist %d %s %s" % (hid, s["bw"], hexs(s["bytes"]), " ".join(ops)))
         hown[hid] = c
     hr, hfaults, hleaky = common.run_harness_leaks(binary, hl, leak_every=512)
+    T('harness histories (%d lines)' % len(hl))
     nh = bad = spec_disagree = 0
     for hid, c in hown.items():
         s = streams[c["sid"]]
